@@ -13,12 +13,15 @@ Record ob3 := mkOb3 { oj : ob; oy : ob; ot : ob }.
 (* the tree a front end handed to LoadFromJsonBytes (None: the front end rejected the text) *)
 Record mid3 := mkMid3 { mj : option jv; my : option jv; mt : option jv }.
 
+(* conf.Load by file extension, conf.MustLoad (where Load succeeded), conf.FillDefault *)
+Record extra := mkExtra { x_byext : list (string * ob); x_must : list (string * ob); x_fill : ob }.
+
 Inductive case :=
 | CaseLoad (T : fields) (d : doc)
            (d2 : option doc)                          (* the same document with re-cased keys *)
            (env : option (list (string * string)))    (* environment of the conf.Load runs *)
            (mid : mid3) (mid2 : option mid3) (midenv : option mid3)
-           (load : ob3) (load2 : option ob3) (envon envoff : option ob3)
+           (load : ob3) (load2 : option ob3) (envon envoff : option ob3) (ex : option extra)
 | CaseStd (T : cfields) (d : doc) (mp st : ob).       (* mapping.UnmarshalJsonBytes, encoding/json *)
 
 Definition ob_of (r : result gval) : ob :=
@@ -74,7 +77,7 @@ Definition opt_all {A} (o : option A) (f : A -> bool) : bool := match o with Som
 (* the generator only emits documents representable in all three formats *)
 Definition in_scope (c : case) : bool :=
   match c with
-  | CaseLoad T d d2 env _ _ _ _ _ _ _ => rep_top d && opt_all d2 rep_top
+  | CaseLoad T d d2 env _ _ _ _ _ _ _ _ => rep_top d && opt_all d2 rep_top
   | CaseStd T d _ _ => match d with DMap _ => true | _ => false end
   end.
 
@@ -85,7 +88,7 @@ Definition in_scope (c : case) : bool :=
 Definition agrees (c : case) : bool :=
   if in_scope c then
     match c with
-    | CaseLoad T d d2 env mid mid2 midenv load load2 envon envoff =>
+    | CaseLoad T d d2 env mid mid2 midenv load load2 envon envoff ex =>
       mids_ok mid d && rf_ok_doc rf_go d
       && ob3_eqb (model3 T d) load
       && match d2, mid2, load2 with
@@ -102,11 +105,37 @@ Definition agrees (c : case) : bool :=
            && opt_all envoff (fun l => ob3_eqb (model3 T d) l)
          | None => true
          end
+      && opt_all ex (fun x =>
+           forallb (fun er => ob_eqb (ob_of (load_path rf_go T (fst er) d)) (snd er)) (x_byext x)
+           && ob_eqb (ob_of (fill_default T)) (x_fill x))
     | CaseStd T d mp st =>
       ob_eqb (ob_of (um_top T (Some (shape rf_go FJson d)))) mp
       && ob_eqb (ob_of (std_top T (Some (shape rf_go FJson d)))) st
     end
   else true.
+
+(* map keys are data: every key of a decoded map occurs literally as a key of the document *)
+Fixpoint doc_allkeys (d : doc) : list string :=
+  match d with
+  | DList l => (fix go (l : docs) : list string := match l with DLnil => [] | DLcons x r => doc_allkeys x ++ go r end) l
+  | DMap m => (fix go (m : dmap) : list string :=
+                 match m with DMnil => [] | DMcons k x r => k :: doc_allkeys x ++ go r end) m
+  | _ => []
+  end.
+
+Fixpoint gval_mapkeys (v : gval) : list string :=
+  match v with
+  | VPtr x => gval_mapkeys x
+  | VSlice l | VStruct l => flat_map gval_mapkeys l
+  | VMap m => flat_map (fun kv => fst kv :: gval_mapkeys (snd kv)) m
+  | _ => []
+  end.
+
+Definition mapkeys_kept (d : doc) (o : ob) : bool :=
+  match o with
+  | OOk v => let ks := doc_allkeys d in forallb (fun k => str_in k ks) (gval_mapkeys v)
+  | _ => true
+  end.
 
 Definition ob3_same (a : ob3) : bool := ob_eqb (oj a) (oy a) && ob_eqb (oj a) (ot a).
 Definition ob3_nopanic (a : ob3) : bool := negb (ob_panics (oj a) || ob_panics (oy a) || ob_panics (ot a)).
@@ -121,11 +150,23 @@ Definition ob3_nopanic (a : ob3) : bool := negb (ob_panics (oj a) || ob_panics (
 Definition prop_ok (c : case) : bool :=
   if in_scope c then
     match c with
-    | CaseLoad T d d2 env mid mid2 midenv load load2 envon envoff =>
-      ob3_nopanic load && ob3_same load
+    | CaseLoad T d d2 env mid mid2 midenv load load2 envon envoff ex =>
+      ob3_nopanic load && ob3_same load && mapkeys_kept d (oj load)
       && opt_all load2 (fun l => ob3_nopanic l && ob3_eqb load l)
       && opt_all envoff (fun l => ob3_eqb load l)
       && opt_all envon (fun l => ob3_nopanic l && ob3_same l)
+      && opt_all ex (fun x =>
+           (* the loader is chosen by the lower-cased extension; an unknown extension is an error;
+              MustLoad agrees with Load; FillDefault does not panic *)
+           forallb (fun er =>
+                      ob_eqb (snd er)
+                             (match fmt_of_ext (fst er) with
+                              | Some FJson => oj load | Some FYaml => oy load | Some FToml => ot load
+                              | None => OErr
+                              end)) (x_byext x)
+           && forallb (fun er => match lookup (fst er) (x_byext x) with Some r => ob_eqb r (snd er) | None => false end)
+                      (x_must x)
+           && negb (ob_panics (x_fill x)))
     | CaseStd T d mp st =>
       match mp, st with
       | OOk v, OOk w => gval_eqb v w
@@ -137,7 +178,7 @@ Definition prop_ok (c : case) : bool :=
 
 Definition model_obs (c : case) :=
   match c with
-  | CaseLoad T d d2 env _ _ _ _ _ _ _ =>
+  | CaseLoad T d d2 env _ _ _ _ _ _ _ _ =>
     (model3 T d, option_map (model3 T) d2,
      option_map (fun e => model3 T (expand_doc e d)) env,
      (shape rf_go FYaml d, shape rf_go FToml d))
